@@ -563,6 +563,9 @@ def extra_checks(pid, cfg, tier, seed):
     """the per-property extra checks, plus the census of the untranslated functions of src/rc.rs for the
     properties whose expectations were written from their text"""
     r = dict(_extra_checks(pid, cfg, tier, seed) or {})
+    if os.environ.get("VERIF_NO_STATIC"):       # experiments only (tools/auto_mutants.py): the dynamic tie alone
+        r["tie_breaks"] = [t for t in r.get("tie_breaks", []) if t.get("type") != "census"]
+        return r
     if pid in ("C05", "C06", "C07", "C12"):
         c = census_ties(pid)
         r["tie_breaks"] = list(r.get("tie_breaks", [])) + c["ties"]
